@@ -111,7 +111,7 @@ pub fn run_case_with(i: u64, rng: &mut Rng, rep: &mut Report, verbose: bool, for
     let mut other_controls = if rng.bool() { gen::gen_req_controls(rng) } else { vec![] };
     other_controls.retain(|c| c.oid != PAGED_OID.as_bytes());
     let setup = Setup {
-        page_size: *rng.pick(&[1, 2, 5, 50, 1000, i32::MAX]),
+        page_size: *rng.pick(&[1, 2, 5, 50, 1000, i32::MAX, 127, 128, 255, 256, 32_767, 32_768, 40_000, 65_535, 65_536, 8_388_607, 8_388_608, 16_777_216]),
         chain: rng.below(3) as u8,
         other_controls,
         opts: if rng.bool() { Some((rng.below(4) as u8, rng.bool(), rng.below(1000) as i32, rng.below(1000) as i32)) } else { None },
@@ -186,7 +186,9 @@ pub fn run_case_with(i: u64, rng: &mut Rng, rep: &mut Report, verbose: bool, for
                         if final_extra_ctl {
                             ctls.push(RespCtl { oid: "1.2.3.4.5".into(), crit: CritEnc::Absent, val: Some(b"keep".to_vec()) });
                         }
-                        ctls.push(RespCtl { oid: PAGED_OID.into(), crit: CritEnc::Absent, val: Some(paged_value(srng.below(1000) as i64, &p.cookie)) });
+                        // servers may spell the criticality out (FALSE, or TRUE in any non-zero octet) in their response control
+                        let crit = match srng.below(4) { 0 => CritEnc::False, 1 => CritEnc::True(*srng.pick(&[0xffu8, 0x01])), _ => CritEnc::Absent };
+                        ctls.push(RespCtl { oid: PAGED_OID.into(), crit, val: Some(paged_value(srng.below(1000) as i64, &p.cookie)) });
                         if final_extra_ctl && srng.bool() {
                             ctls.push(RespCtl { oid: "1.2.3.4.6".into(), crit: CritEnc::Absent, val: None });
                         }
